@@ -198,6 +198,30 @@ Section Strings.
   (* PauliString.matrix(qubits): qubits absent from the string carry the identity *)
   Definition ps_matrix (qs : list qid) (a : pstr) : matrix := dense_matrix (coef a) (letters qs (pm a)).
 
+  (* ---------- vocabulary of the C14 theorem statements ---------- *)
+  (* the identity string over a register, and the matrix each PAULI_STRING_LIKE atom stands for *)
+  Definition id_matrix (qs : list qid) : matrix := dense_matrix z1 (map (fun _ => pI) qs).
+  Definition plike_matrix (qs : list qid) (x : plike) : matrix :=
+    match x with
+    | LPS p => ps_matrix qs p
+    | LNum c => dense_matrix c (map (fun _ => pI) qs)
+    | LMap m => dense_matrix z1 (letters qs m)
+    | LId => id_matrix qs
+    end.
+  (* a I + b P for the unit-coefficient string with letters l; PauliStringPhasor with phase wn on the -1 eigenspace
+     and wp on the +1 eigenspace of P is (wp+wn)/2 I + (wp-wn)/2 P *)
+  Definition lin_ip (l : list pauli) (a b : K) : matrix :=
+    madd O (dense_matrix a (map (fun _ => pI) l)) (dense_matrix b l).
+  Definition phasor_mat (l : list pauli) (wn wp : K) : matrix :=
+    lin_ip l (khalf O *k kadd O wp wn) (khalf O *k ksub O wp wn).
+  (* one row (lhs, old, sign, new, ret) of the regenerated _imul_atom_helper table, read as an equation between 2x2
+     matrices: sign = -1 (inplace_left_multiply_by, PauliString.__mul__): old . lhs; sign = +1: lhs . old *)
+  Definition atom_row_ok (row : Z * Z * Z * Z * Z) : Prop :=
+    match row with (l, o, s, n, ret) =>
+      let A := pauli_mat (pauli_of_code l) in let B := pauli_mat (pauli_of_code o) in
+      (if (s =? 1)%Z then mmul O A B else mmul O B A) = mscale O (ipow ret) (pauli_mat (pauli_of_code n))
+    end.
+
   (* ---------- Pauli sums: LinearDict keyed by the unit string (frozenset -> sorted list) ---------- *)
   Definition psum := list (pmap * K).       (* keys canonical (pm_sort), pairwise distinct *)
   Fixpoint ld_add (key : pmap) (c : K) (s : psum) : psum :=
@@ -225,6 +249,16 @@ End Strings.
 Arguments mkP {K} _ _. Arguments coef {K} _. Arguments pm {K} _.
 Arguments mkD {K} _ _. Arguments dcoef {K} _. Arguments dmask {K} _.
 Arguments LPS {K} _. Arguments LNum {K} _. Arguments LMap {K} _. Arguments LId {K}.
+
+(* side conditions of the theorems: the keys of a string are distinct and lie in the register the matrix is taken over;
+   no stored letter is the identity (PauliString invariant); every term of a sum is such a string *)
+Definition keys_ok (qs : list qid) (m : pmap) : Prop := NoDup (pm_keys m) /\ incl (pm_keys m) qs.
+Definition no_I (m : pmap) : Prop := forall e, In e m -> snd e <> pI.
+Definition plike_ok {K} (qs : list qid) (x : plike (K:=K)) : Prop :=
+  match x with LPS p => keys_ok qs (pm p) | LMap m => keys_ok qs m | _ => True end.
+Definition psum_ok {K} (qs : list qid) (s : psum (K:=K)) : Prop := Forall (fun e => keys_ok qs (fst e)) s.
+Definition atom_domain : list (Z * Z * Z) :=
+  flat_map (fun l => flat_map (fun o => [(l, o, 1%Z); (l, o, (-1)%Z)]) [0; 1; 2; 3]%Z) [0; 1; 2; 3]%Z.
 
 (* ---------- the exact executable instance used by the correspondence run: Gaussian rationals Q(i) ---------- *)
 Definition GQ := (Qc * Qc)%type.
